@@ -86,7 +86,7 @@ def oracle_one(cfg: e3.E3Config, obs, msgs):
     # contains it as a complete line (captured output) - a mention inside some other text, such as
     # the "Logging error" dump of a record that could not be sent, is not a delivery
     seen_tokens: collections.Counter = collections.Counter()
-    PREFIX = {'log': 'log', 'warn': 'warn', 'exc': 'exc', 'burst': 'b', 'print': 'out', 'iprint': 'out', 'nprint': 'out',
+    PREFIX = {'log': 'log', 'dlog': 'dbg', 'warn': 'warn', 'exc': 'exc', 'burst': 'b', 'print': 'out', 'iprint': 'out', 'nprint': 'out',
               'wprint': 'out', 'eprint': 'out', 'rprint': 'out', 'err': 'err'}
     first_lines = collections.Counter(m.split('\n', 1)[0] for m in msgs)
     all_lines = collections.Counter(ln.strip() for m in msgs for ln in m.split('\n'))
@@ -97,7 +97,7 @@ def oracle_one(cfg: e3.E3Config, obs, msgs):
             if kind.startswith('burst'):
                 kind = 'burst'
             text = PREFIX[kind] + tok
-            n = first_lines.get(text, 0) if kind in ('log', 'warn', 'exc', 'burst') else all_lines.get(text, 0)
+            n = first_lines.get(text, 0) if kind in ('log', 'dlog', 'warn', 'exc', 'burst') else all_lines.get(text, 0)
             if n == 0:
                 out.append((f'lost:{kind}', f'fragment {tok} ({kind}, pattern {pat!r}) of node {i} was never delivered to the caller\'s labtech logger before run_tasks returned'))
             elif n > 1:
@@ -187,7 +187,7 @@ def _real(a):
 
 def real_cases(tier: str):
     out = []
-    pats = [('log', 'print'), ('print+flush+print+flush', 'log+print+err+eflush'), ('print', 'print'), ('nprint+iprint', 'exc'), ('wprint', 'eprint'), ('log+print+flush+die', 'log'), ('print+rprint', 'err')]
+    pats = [('log', 'print'), ('print+flush+print+flush', 'log+print+err+eflush'), ('print', 'print'), ('nprint+iprint', 'exc'), ('wprint', 'eprint'), ('log+print+flush+die', 'log'), ('print+rprint', 'err'), ('dlog', 'log+dlog')]
     for pa, pb in pats:
         for shape in [((), ()), ((), (0,))]:
             base = e2.Config(spec=mk_spec(shape), requested=((0, False), (1, False)), emit=((0, pa), (1, pb)))
@@ -210,7 +210,7 @@ def configs(tier: str):
                 for mw in (1, 2):
                     out.append(e3.E3Config(base=base, backend=be, max_workers=mw, log_mode='choice', liveness_choice=False))
     # output of failing tasks, whitespace-led output, and a burst larger than any plausible queue bound
-    extra = [('log+die', 'print', ()), ('print+flush+die', 'log', ()), ('warn+print+flush+die', 'print+flush', ()),
+    extra = [('dlog', 'log', ()), ('log+dlog', 'dlog+print+flush', ()), ('log+die', 'print', ()), ('print+flush+die', 'log', ()), ('warn+print+flush+die', 'print+flush', ()),
              ('print+rprint+flush', 'log', ()), ('print+rprint+rprint+print', 'print', ()), ('err+rprint', 'rprint', ()),
              ('print', 'log', (0,)), ('print+err', 'print+flush', (0,)), ('log+print', 'print', (1,)), ('print', 'print', (0, 1)),
              ('iprint+flush+nprint', 'log', ()), ('nprint', 'iprint', ()), ('burst1200', 'log', ()),
